@@ -379,6 +379,32 @@ def r5_slots(ctx, F, pid="C07"):
             ctx.check(rule, "umount/vacates-always", ok,
                       "umount empties the mount's slot only under %s: otherwise the mount point is gone but its backend stays reachable through "
                       "inode numbers handed out earlier and the index is never freed" % (extra or "a condition on the publishing store"), loc=tk[0].loc())
+        # ... and nothing can end the operation between removing the mount point and vacating its slot (no other `?`, no early return)
+        if len(tk) == 1:
+            uv = vf.VF(b, inline_depth=0)
+            unlink_names = ("evict_inode", "remove", "store")
+            starts = []      # (call in umount after which the mount point is gone, expression whose own `?` is harmless)
+            for c in live_calls(b):
+                if (c.name == "store" and "arc_swap" in (c.fn or "") and vf.render(uv.call_args(c)[0], b, short=True) == "self.mountpoints") or c.name == "evict_inode":
+                    starts.append((c, None))
+                else:
+                    for a_ in uv.call_args(c):
+                        x_ = vf.strip_casts(a_)
+                        if x_[0] == "CL" and x_[1] in F.fns and any(y.name == "store" or y.name == "evict_inode" for y in live_calls(F.fns[x_[1]])):
+                            starts.append((c, uv.call_expr(c)))
+            leak = []
+            for (c, own) in starts:
+                if c.target is None:
+                    continue
+                region = b.reach_set(c.target, avoid={tk[0].bb})
+                for d in live_calls(b):
+                    if d.bb in region and d.name == "from_residual":
+                        arg = uv.call_args(d)[0]
+                        if own is None or not (any(x_ == own for x_ in vf.walk(arg)) or vf.render(own, b, short=True, vfx=uv) in vf.render(arg, b, short=True, vfx=uv)):
+                            leak.append(d)
+            ctx.check(rule, "umount/no-exit-between-unlink-and-vacate", bool(starts) and not leak,
+                      "umount can fail%s after the mount point was removed (or its pseudo inode evicted) and before the slot is vacated: the backend stays reachable and is never destroyed"
+                      % (" at line %s" % leak[0].line if leak else ""), loc=(leak[0].loc() if leak else b.loc()))
         # over-mount vacates the previous slot
         b, w, v = writers["insert_mount_locked"]
         sb = [x for x in w if x[0] == "superblocks"]
@@ -419,6 +445,13 @@ def r5_slots(ctx, F, pid="C07"):
     ctx.check(rule, "mount/stores-callers-mapping", stored == ["id_mapping"],
               "mount_with_id_mapping stores `%s` as the mount's id mapping instead of the `id_mapping` it was given" % (stored[0][:160] if stored else "nothing"),
               loc=(mw[0][3].loc() if mw else b.loc()), detail=";".join(stored)[:80])
+    # (a3) restore_mount re-attaches a backend under a restored index: that slot's mapping was restored from the snapshot already
+    rm_ = writers.get("restore_mount")
+    if rm_ is not None:
+        bad_ = [x for x in rm_[1] if x[0] == "mount_id_mappings"]
+        ctx.check(rule, "restore_mount/keeps-restored-mapping", not bad_,
+                  "Vfs::restore_mount writes mount_id_mappings[%s]: the per-mount mapping restored from the snapshot is overwritten" % (bad_[0][1] if bad_ else ""),
+                  loc=(bad_[0][3].loc() if bad_ else rm_[0].loc()))
     # (a') the mapping stored for the new occupant is not overwritten while the mount is inserted
     b2, w2, v2 = writers["insert_mount_locked"]
     clobber = [x for x in w2 if x[0] == "mount_id_mappings" and x[1] == "fs_idx"]
